@@ -74,8 +74,8 @@ def pos_if(iff):
     return t, tb, fb
 
 
-class Undecidable(Exception):
-    pass
+class Undecidable(AnalysisError):
+    """a decision fragment contains something the evaluator cannot decide: the rule refuses to answer"""
 
 
 class Decision(object):
@@ -87,6 +87,8 @@ class Decision(object):
         self.facts = dict(facts or {})
         self.values = dict(values or {})
         self.env = {}
+        self.exprs = {}         # target text -> last non-constant value expression assigned
+        self.augs = []          # (target text, value expr) of augmented assignments executed
         self.result = None      # ('return', v) | ('raise', text) | None
 
     def test(self, t):
@@ -114,6 +116,10 @@ class Decision(object):
                         return lv is rv
                     if isinstance(op, ast.IsNot):
                         return lv is not rv
+                    if isinstance(op, (ast.Lt, ast.LtE, ast.Gt, ast.GtE)) and isinstance(lv, (int, float)) and isinstance(rv, (int, float)):
+                        return {ast.Lt: lv < rv, ast.LtE: lv <= rv, ast.Gt: lv > rv, ast.GtE: lv >= rv}[type(op)]
+                    if isinstance(op, (ast.Lt, ast.LtE, ast.Gt, ast.GtE)):
+                        raise Undecidable(txt)
                 if isinstance(r, (ast.Tuple, ast.List, ast.Set)) and all(isinstance(e, ast.Constant) for e in r.elts):
                     vals = [e.value for e in r.elts]
                     if isinstance(op, ast.In):
@@ -132,6 +138,11 @@ class Decision(object):
                 self.run(st.body if self.test(st.test) else st.orelse)
             elif isinstance(st, ast.Assign) and len(st.targets) == 1 and isinstance(st.value, ast.Constant):
                 self.env[norm(st.targets[0])] = st.value.value
+            elif isinstance(st, ast.Assign) and len(st.targets) == 1:
+                self.exprs[norm(st.targets[0])] = st.value
+                self.env.pop(norm(st.targets[0]), None)
+            elif isinstance(st, ast.AugAssign):
+                self.augs.append((norm(st.target), st.value))
             elif isinstance(st, ast.Return):
                 if st.value is None or isinstance(st.value, ast.Constant):
                     self.result = ("return", None if st.value is None else st.value.value)
@@ -139,7 +150,7 @@ class Decision(object):
                     self.result = ("return-expr", norm(st.value))
             elif isinstance(st, ast.Raise):
                 self.result = ("raise", norm(st.exc)[:40] if st.exc is not None else "")
-            elif isinstance(st, (ast.Pass,)) or (isinstance(st, ast.Expr) and isinstance(st.value, ast.Constant)):
+            elif isinstance(st, (ast.Pass, ast.Assert)) or (isinstance(st, ast.Expr) and isinstance(st.value, ast.Constant)):
                 continue
             else:
                 raise Undecidable(norm_stmt(st)[:60])
